@@ -401,13 +401,13 @@ class Sim:
         p.node.add(name, ADDR[0], ADDR[1], reconnect_delay=0, **(fw or {}))
         conn = Conn(len(self.conns), name, p)
         enter(A)
-        nserv = len(A.node.server.get_socks())
+        before = list(A.node.server.get_socks())
         enter(p)
         for i in range(60):
             self.tick(p)
             self.tick(A)
             enter(A)
-            if len(A.node.server.get_socks()) > nserv and name in p.connected:
+            if any(x not in before for x in A.node.server.get_socks()) and name in p.connected:
                 break
         else:
             raise HarnessLimit('connection %s was not established' % name)
@@ -1176,7 +1176,7 @@ class Sim:
     def bytes_to_move(self):
         n = 0
         for c in self.calls:
-            if c.done is None and not c.blocked:
+            if c.done is None and c.blocked != 'send':      # (an event rejected by the receive firewall still travels)
                 n += c.size + c.rsize
         if self.hp is not None:
             n += len(self.hp.out) + sum(len(J(c.args)) for c in self.hcalls if not c.runs)
